@@ -22,10 +22,12 @@ void h_get_setter() {
   if (vin_clash) g_builder._functions_by_name[std::string("n")] = 5;
   bool vin_member = nondet_bool();
   static CPPInstance element(&g_type, std::string("x")); element._storage_class = nondet_int();
+  CPPExpression *vin_init = nondet_bool() ? (CPPExpression *)vu_alloc(8) : (CPPExpression *)0; element._initializer = vin_init;
   g_name_tests = g_get_function_calls = 0; g_scope_at_name_test = (CPPScope *)0;
   FunctionIndex r = g_builder.get_setter(&g_type, std::string("x"), vin_member ? &g_struct : (CPPStructType *)0, vin_member ? &g_scope : (CPPScope *)&parser, vin_member ? &element : (CPPInstance *)0);
   OBL(g_name_tests == 1 && g_scope_at_name_test == (vin_member ? &g_scope : (CPPScope *)&parser), "C03.get_setter: the clash test is made on the setter's fully scoped name (its identifier already carries the scope of the class)");
   OBL(vin_clash ? (r == 0 && g_get_function_calls == 0) : (r == vin_new_index && g_get_function_calls == 1), "C03.get_setter: no setter is synthesised when a function of that name exists; otherwise exactly one is");
   if (!vin_clash) OBL((g_flags_given & InterrogateFunction::F_setter) != 0 && ((g_flags_given & InterrogateFunction::F_method) != 0) == (vin_member && (element._storage_class & CPPInstance::SC_static) == 0), "C03.get_setter: the setter of a non-static member is a method, that of a static member or a global is not");
+  OBL(element._initializer == vin_init, "C03.get_setter: the data member is left as it was declared: its initializer is still known afterwards (the class's implicit constructors and later constants are judged from it)");
   VU_REACHED();
 }
